@@ -189,6 +189,7 @@ func runC12(c *Ctx) {
 	sc.startFound = true
 	cr := newChainRun(c, sc)
 	ns := cr.ns
+	maybeStalls(c, ns.S, 2, 10, 50)
 	r := &c12run{c: c, cr: cr, ns: ns, adv: map[*PeerConn]*advState{}, announcedByTrusted: map[bitcoin.Hash32]bool{}}
 	nUntrusted := 1 + int(t.Choose(3))
 	ns.Cfg.UntrustedCount = nUntrusted
